@@ -14,12 +14,12 @@ import (
 
 func init() {
 	simrt.Register(&simrt.Scenario{
-		Prop: "C13", Name: "dead-peer", Count: tiered(3000, 60000),
+		Prop: "C13", Name: "dead-peer", Count: tiered(3000, 480000),
 		Run: c13Dead, MaxOps: 2 << 20, Horizon: 6 * time.Hour,
 		Doc: "transport goes totally silent at a tape-chosen instant with 0..N+3 messages queued at that moment (idle / sending / full window with a blocked Send); both endpoints must fail their calls within the bound",
 	})
 	simrt.Register(&simrt.Scenario{
-		Prop: "C13", Name: "idle-healthy", Count: tiered(400, 20000),
+		Prop: "C13", Name: "idle-healthy", Count: tiered(400, 160000),
 		Run: c13Idle, MaxOps: 6 << 20, Horizon: 14 * time.Hour,
 		Doc: "fault-free link with round-trip latency below the pong timeout, idle for up to 12 virtual hours (occasional traffic): keepalive must never close it",
 	})
